@@ -313,7 +313,7 @@ func c02Tasks(tier string) []Task {
 	// the same directory under both spellings of its path (with / without a trailing separator), merges in between
 	{
 		run := makeRunC02(defaultCfg, defaultCfg, []Cfg{defaultCfg})
-		tasks = append(tasks, seqTasks("C02", []seqLevel{{Name: "dir-spelling-d5", Cfgs: []Cfg{defaultCfg}, Keys: keysAB, Alpha: dirSpellingAlphabet, Depth: 5, Dev: 5, Run: run}})...)
+		tasks = append(tasks, seqTasks("C02", []seqLevel{{Name: "dir-spelling-d5", Cfgs: []Cfg{defaultCfg}, Keys: keysAB, Alpha: dirSpellingAlphabet, Depth: 5, Dev: 2, Run: run}})...)
 	}
 	if tier == "quick" {
 		addLevel("pairs-d2", allPairs, 2, 2)
